@@ -117,6 +117,7 @@ const (
 	OpUI2F // unsigned bv -> float
 	OpF2SI // float -> signed bv (truncate toward zero), to t.sort
 	OpFIsNaN
+	OpFIsNeg // sign bit set (fp.isNegative); in real mode x < 0
 )
 
 type Term struct {
@@ -780,6 +781,17 @@ func (tb *TermTab) FIsNaN(a *Term) *Term {
 	return tb.mk(OpFIsNaN, SBool, a)
 }
 
+// FIsNeg is math.Signbit: true for negative values and -0 (never for NaN in the SMT theory).
+func (tb *TermTab) FIsNeg(a *Term) *Term {
+	if FloatReal {
+		return tb.FLt(a, tb.Float(0))
+	}
+	if a.IsConst() {
+		return tb.Bool(math.Signbit(a.F64()))
+	}
+	return tb.mk(OpFIsNeg, SBool, a)
+}
+
 func (tb *TermTab) IntToFloat(a *Term, signed bool) *Term {
 	if a.IsConst() {
 		if signed {
@@ -903,6 +915,8 @@ func (t *Term) Body() string {
 		return fmt.Sprintf("(%s %s %s)", n, r(0), r(1))
 	case OpFIsNaN:
 		return fmt.Sprintf("(fp.isNaN %s)", r(0))
+	case OpFIsNeg:
+		return fmt.Sprintf("(fp.isNegative %s)", r(0))
 	case OpSI2F:
 		if FloatReal {
 			// bv -> int -> real, signed
